@@ -107,6 +107,19 @@ theorem table_matches_spec :
 
 /-! ## Histories: the running set is always the decision for the current state and modes -/
 
+/-- What `status` in the theorems below abbreviates: the documented decision applied to the effect's run
+    mode on this item (default `full_compliance`), its category's state, whether it is the type's default
+    effect / chance-based / the 'online' effect, and whether the item's 'online' effect runs (itself decided
+    the same way, for the same state). -/
+theorem status_def (t : TypeDef) (modes : List (Nat × Nat)) (st : State) (e : EffectDef) :
+    t.status modes st e =
+      decideStatus st (ModeK.ofId (getMode modes e.id)) e.estate
+        ⟨t.defaultEffect == some e.id, e.hasChance, e.id == onlineId⟩
+        (match t.effects.find? (·.id == onlineId) with
+         | none => false
+         | some on => decideStatus st (ModeK.ofId (getMode modes on.id)) on.estate
+             ⟨t.defaultEffect == some on.id, on.hasChance, on.id == onlineId⟩ false) := rfl
+
 /-- After ANY sequence of operations (creating items, adding/removing them, state and run-mode changes,
     charges, source switches, taking the fit out of the solar system, side-effect and ability switches),
     for every item: an effect is running iff the item is loaded and the specification's decision for the
@@ -333,6 +346,15 @@ example : ((demoWorld.run [.new 1 .moduleHigh 1 .overload, .item 1 .add, .setSou
 example : ((demoWorld.run [.setSource (some 0), .new 2 .booster 2 .offline, .item 2 .add,
     .item 2 (.randomize [3 / 10, 3 / 10])]).items.map fun h =>
       (h.core.running, h.core.sideStatus 30, h.core.sideStatus 31)) = [([30], true, false)] := by decide +kernel
+/-- A charge follows its module: its active default effect 40 starts when the MODULE goes active. -/
+example : ((({ demoWorld with sources := [[(1, ⟨[], none, []⟩), (3, ⟨[⟨40, .active, false, none⟩], some 40, []⟩)]] } : World).run
+    [.setSource (some 0), .new 1 .moduleMid 1 .online, .item 1 .add, .item 1 (.setCharge (some (3, []))),
+     .item 1 (.setState .active)]).items.map fun h => (h.charge.map (·.running), h.charge.map (·.log.length))) =
+    [(some [40], some 1)] := by decide +kernel
+/-- A listed ability switched off and on again (fighter in active state; effect 6465 is the default effect). -/
+example : (({ sources := [[(4, ⟨[⟨6465, .active, false, none⟩], some 6465, [26]⟩)]], abilityMap := [(26, 6465)] } : World).run
+    [.setSource (some 0), .new 1 .fighter 4 .active, .item 1 .add, .item 1 (.setAbility 26 false)]).items.map
+    (fun h => (h.core.running, h.core.abilityStatus 6465)) = [([], some false)] := by decide +kernel
 example : (⟨.active, 1, .active, true, .absent, false, none⟩ : Key).spec = some true := by decide
 example : (⟨.active, 1, .area, true, .absent, false, none⟩ : Key).spec = none := by decide
 
